@@ -1742,6 +1742,48 @@ def vc_worker_errors_checked(fns, variants, work):
 
 
 # ------------------------------------------------------------------------------------------ C02 / C03 / C20: bookkeeping between hunks
+def vc_every_hunk_tried(fns, variants, work):
+    """apply_modify in normal mode: every hunk report that is pushed is the outcome of a try_apply_hunk call made for that hunk
+    (at least fuzz level 0 is always tried: the level range is 0..=min(fuzz, usable)); no hunk is written off as failed or
+    skipped because an earlier one failed -- the reject file needs every failing hunk."""
+    fn = find_fn(fns, r"::apply_modify$")
+    found, reached = [], {"pushes": 0, "tries": 0}
+    mode_param = [k for k, t in fn.types.items() if re.fullmatch(r"_\d+", k) and int(k[1:]) <= fn.nparams and "ApplyMode" in t][0]
+    RB = variants["Rollback"]
+
+    def on_call(eng, st, bb, site, stmt, dst, callee, args, nxt):
+        c = callee.strip()
+        if re.search(r"(^|::)try_apply_hunk$", c):
+            reached["tries"] += 1
+            st.ghost = st.ghost | {"tried"}
+        elif re.search(r"FilePatchApplyReport::push_hunk_report$", c):
+            d = z3.BitVec("in_%s#disc" % mode_param, 64)
+            normal, _ = eng.feasible(st, [d != RB])
+            if normal:
+                reached["pushes"] += 1
+                if "tried" not in st.ghost:
+                    ok, model = eng.feasible(st, [d != RB])
+                    eng.record_query("%s push untried" % bb, list(st.pc) + [d != RB])
+                    if ok:
+                        found.append({"bb": bb, "stmt": stmt[:160], "what": "a hunk's report is recorded without the hunk having been tried (a failing hunk would be missing from the reject file)",
+                                      "model": model_values(model, ("in_", "c_")), "trace": list(st.trace[-14:])})
+            st.ghost = st.ghost - {"tried"}
+        return None
+
+    eng = Engine(fns, fn, variants, hooks={"on_call": on_call})
+    seeds = {mode_param}
+    for bb, stmts in fn.blocks.items():
+        for s_ in stmts:
+            m = callm(s_, need_dst=True)
+            if m and re.search(r"RangeInclusive", m.group(2)):
+                seeds.add(m.group(1))
+                seeds |= set(re.findall(r"_\d+", m.group(3)))
+    eng.seeds = seeds
+    eng.run()
+    return summarize(eng, found, {"push_sites_reached": reached["pushes"], "try_sites_reached": reached["tries"]}, work, "c13t",
+                     witness_ok=reached["pushes"] > 0 and reached["tries"] > 0, witness_note="%r" % reached)
+
+
 def vc_rollback_view_recorded(fns, variants, work):
     """apply_modify in rollback mode: each hunk is undone through the view built with the direction passed in and the fuzz
     level RECORDED for that hunk in the report being rolled back (HunkApplyReport::Applied.fuzz), never the caller's fuzz
